@@ -7,6 +7,15 @@ HERE = os.path.dirname(os.path.dirname(os.path.abspath(__file__)))
 
 # id -> (built?, technique, level text, level note, design ref)
 CHECKS = {
+ "C08": (True, "exhaustive enumeration of a compiled schema grammar (programs) x values against an interpreter of the documented wire format",
+         "About 1000 (quick) type definitions covering index sets with gaps and permutations, array/map at type, enum and variant level, tags at every level, every field type (borrowed, bytes, nested, generic, custom nil-aware codecs, indefinite-array types), transparent, skip, index_only and 23/24/25 fields are compiled with the real derive macros; for every presence combination and boundary value the bytes must equal the preferred serialisation of the documented format computed by a schema interpreter that never sees names, declaration order or n/b.",
+         "trusted: refmodel::schema::schema_encode (written from minicbor-derive's 'CBOR encoding' documentation); the generator and the interpreter share one schema value", "5/C08"),
+ "C09": (True, "exhaustive enumeration of compiled schemas x values x re-framings (<= 2 deviations) and single-point damage, against a reference decoder of the documented rules",
+         "Every value of every compiled schema is decoded back as produced, with a trailing byte and in every re-framing with up to two deviations (indefinite containers, wider heads): equal value, exact consumption, borrowed fields inside the input. Every single-point damage (tag bumped/removed, array shortened, map entry removed/re-keyed, enum index replaced) is judged by the reference decoder: rejected inputs must be rejected, still-decodable ones must give the reference value.",
+         "trusted: refmodel::schema::schema_decode; inputs the documentation makes no promise for (indefinite enum pair, chunked strings, duplicate keys) are not judged", "5/C09"),
+ "C10": (True, "exhaustive enumeration of (old, new) schema pairs produced by documented-compatible edits x writer values x both directions, against the reference decoder of the reader",
+         "For every pair of compiled schemas related by one or two documented-compatible edits (10-type menu of optional fields at gap / new-highest indices, dropped fields, variants added behind optional fields for regular and index_only enums, unit -> tuple/struct variants), both encodings and both directions, every writer value is decoded by the reader: shared fields equal, unknown optional fields None, unknown fields ignored whatever their content (10-item menu incl. nested indefinite containers), unknown variants None without disturbing siblings; incompatible pairs must fail.",
+         "trusted: refmodel::schema::schema_decode as the projection oracle", "5/C10"),
  "C07": (True, "exhaustive value/schema enumeration comparing CborLen with the real encoder (and exact-fit / one-short buffers)",
          "Every small-domain value of every built-in CborLen instantiation, the integer width tables (exhaustive to 16 bits, 2^32 in the thorough tier), every Token variant with boundary payloads and every value of every generated derive schema: len(v) must equal the number of bytes written, a buffer of exactly that size must suffice and one byte less must fail with a write error.",
          "trusted: the real encoder is the oracle for the length (C03/C08 check the encoder itself)", "5/C07"),
